@@ -76,6 +76,27 @@ def execute(case, monitors, iter_cap=400):
                     for m in w.monitors:
                         if hasattr(m, "on_readonly"):
                             m.on_readonly(inc, s, "after_sample")
+                if kind == "rewind":
+                    # the same sampler object (its stage objects have lived through a whole run) goes back to an earlier checkpoint of that run and
+                    # continues from there: nothing a stage object remembers from the finished run may leak into the resumed one
+                    cks = sorted([p for p in w.fs.files("/simfs/out") if re.search(r"_(\d+)\.state$", p)], key=lambda p: int(re.search(r"_(\d+)\.state$", p).group(1)))
+                    if cks:
+                        ck = cks[0] if case.get("rewind_to", "first") == "first" else cks[len(cks) // 2]
+                        info["resume_from"] = ck
+                        for m in w.monitors:
+                            if hasattr(m, "on_phase"):
+                                m.on_phase(inc, "resume")
+                        info["iters"].append(inc.n_commits)
+                        inc.n_commits = 0
+                        info["completed"] = False
+                        n2 = case.get("resume_n_total", n_total)
+                        s.run(n_total=n2, progress=False, resume_state_path=ck)
+                        info["completed"] = True
+                        info["resumed"] = True
+                        w.probe("same_object_rewound_to_earlier_checkpoint")
+                        for m in w.monitors:
+                            if hasattr(m, "on_run_end"):
+                                m.on_run_end(inc, s, n2, "resumed")
                 if kind == "rerun":
                     for m in w.monitors:
                         if hasattr(m, "on_phase"):
